@@ -375,14 +375,21 @@ func TestC05(t *testing.T) {
 			}
 		} else {
 			var gns []*dt.Node
-			for i, k := 0, rapid.IntRange(2, 5).Draw(rt, "nonion"); i < k; i++ {
-				gns = append(gns, gen.GNDNS([]byte(fmt.Sprintf("www.%s%d.onion", strings.Repeat("a", 15), i))))
+			var names []string
+			for i, k := 0, rapid.IntRange(3, 6).Draw(rt, "nonion"); i < k; i++ {
+				n := fmt.Sprintf("www.%s%c.onion", strings.Repeat("a", 15), 'b'+i)
+				names = append(names, n)
+				gns = append(gns, gen.GNDNS([]byte(n)))
 			}
 			v.SetSAN(false, gns...)
+			v.RemoveCN()
 			v.SetPolicies([]int{2, 23, 140, 1, 1})
 			v.SetEKU(gen.EKUServerAuth)
-			// TorServiceDescriptor extension with one descriptor for none of the names
-			v.SetExt([]int{2, 23, 140, 1, 31}, false, dt.Seq())
+			// TorServiceDescriptor extension with a well-formed descriptor for the first name only:
+			// every other EV .onion name lacks one
+			hash := append([]byte{0}, make([]byte, 32)...)
+			desc := dt.Seq(dt.Prim(0, 12, []byte("https://"+strings.TrimPrefix(names[0], "www."))), gen.AlgID([]int{2, 16, 840, 1, 101, 3, 4, 2, 1}, false), dt.Prim(0, 3, hash))
+			v.SetExt([]int{2, 23, 140, 1, 31}, false, dt.Seq(desc))
 		}
 		if pc != nil && pc.SelfSigned {
 			v.SelfSign()
